@@ -594,4 +594,26 @@ theorem feed_gate (s : St) (buf : List Nat) (cb : Cb) (hb : ∀ b ∈ buf, b < 2
             · intro h; simp only [hft, if_false] at h; cases h
 
 
+
+/-- executable version of `Spec.Pkt.Valid` (for concrete instances) -/
+def validB (p : Spec.Pkt) : Bool :=
+  decide (p.channel < 16) && decide (p.ft < 16) && decide (p.ft &&& 1 = 0) && decide (p.ial < 16) &&
+  decide (p.spa.length = p.ial &&& 7) && decide (p.ial &&& 7 ≠ 7) && p.spa.all (· < 16) &&
+  decide (p.ri < 256) && decide (p.ci < 256) && p.data.all (· < 256) && decide (p.dummy < 256) &&
+  decide (p.dummy ≠ 0 ∧ p.dummy ≠ 0xFF) && p.pad.all (· < 256) && (p.haveDl || decide (p.pad = [])) &&
+  decide (p.crcLo < 256) && decide (p.crcHi < 256) && decide (p.bytes.length = 42) &&
+  decide (p.residual = if p.haveCi then 0 else p.ci * 257)
+
+theorem valid_of_validB (p : Spec.Pkt) (h : validB p = true) : p.Valid := by
+  simp only [validB, Bool.and_eq_true, decide_eq_true_eq, List.all_eq_true, Bool.or_eq_true] at h
+  obtain ⟨⟨⟨⟨⟨⟨⟨⟨⟨⟨⟨⟨⟨⟨⟨⟨⟨h1, h2⟩, h3⟩, h4⟩, h5⟩, h6⟩, h7⟩, h8⟩, h9⟩, h10⟩, h11⟩, h12⟩, h13⟩, h14⟩, h15⟩, h16⟩, h17⟩, h18⟩ := h
+  exact { channel_lt := h1, ft_lt := h2, ft_a := h3, ial_lt := h4, spa_len := h5, spa_len_ne := h6,
+          spa_lt := h7, ri_lt := h8, ci_lt := h9, data_lt := h10, dummy_lt := h11, dummy_ne := h12,
+          pad_lt := h13,
+          pad_nil := by
+            intro hd; rcases h14 with h | h
+            · rw [hd] at h; cases h
+            · exact h
+          crcLo_lt := h15, crcHi_lt := h16, length_eq := h17, crc_ok := h18 }
+
 end Zvbi.Idl
